@@ -39,7 +39,7 @@ CU = 'utils.courier_utils'
 
 
 def run(ctx: Ctx):
-  for r in (r1, r2, r3, r4, r5, r6, r7, r8, r11, r12, r13, r14, r18, r19, r22):
+  for r in (r1, r2, r3, r4, r5, r6, r7, r8, r11, r12, r13, r14, r18, r19, r22, r23, r24):
     ctx.guard(r)
   from mlmverif.props import c15
   from mlmverif.props import c05
@@ -1105,12 +1105,100 @@ def r22(ctx: Ctx):
   ctx.floor(rule, 1, n)
 
 
+def r23(ctx: Ctx):
+  rule = 'R-C06-23'
+  ctx.rule(rule, '"every output batch is delivered at least once": a request for the next remote batch is NOT idempotent — the'
+           ' server keeps serving a request its client has given up on and hands the batch to nobody. In the polling loop of'
+           ' CourierClient.async_iterate (the `while` that calls next_batch_from_generator) the await of the answer is'
+           ' therefore never wrapped in a handler that polls again (`continue`) after an error: a timed-out request ends'
+           ' the shard attempt (the shard is re-run from its start), it is not followed by a fresh request to the same,'
+           ' moved-on generator — that batch would be lost without an error while the aggregate still counts it')
+  ci = ctx.repo.cls('utils.courier_utils', 'CourierClient')
+  n = 0
+  for name in ('async_iterate',):
+    fi = ci.methods.get(name)
+    if fi is None:
+      raise AnalysisError(f'{rule}: CourierClient.{name} not found')
+    loops = [x for x in ast.walk(fi.node) if isinstance(x, ast.While) and any(
+        isinstance(c, ast.Call) and unparse(c.func).endswith('next_batch_from_generator') for c in ast.walk(x))]
+    for lp in loops:
+      n += 1
+      bad = None
+      for t in ast.walk(lp):
+        if isinstance(t, ast.Try) and any(isinstance(y, ast.Await) for b in t.body for y in ast.walk(b)):
+          for h in t.handlers:
+            if any(isinstance(y, ast.Continue) for b in h.body for y in ast.walk(b)):
+              bad = h
+      what = f'CourierClient.{name}: a failed next-batch request is not repeated against the same generator'
+      if bad is not None:
+        ctx.fail(rule, fi, what,
+                 f'the handler `except {unparse(bad.type) if bad.type is not None else ""}` around the awaited answer continues the polling'
+                 ' loop: after a deadline-exceeded request the server still takes the next element for the abandoned call, the'
+                 ' repeated request carries on behind it — that output batch reaches nobody', node=bad)
+      else:
+        ctx.ok(rule, fi, what, lp)
+  ctx.floor(rule, 1, n)
+
+
+def r24(ctx: Ctx):
+  rule = 'R-C06-24'
+  ctx.rule(rule, '"as long as one worker stays usable ... every task result is delivered": the candidates `as_completed` offers to'
+           ' `next_idle_worker` are ALL alive workers of the pool, proven ones first. The list handed over is built from'
+           ' both the proven set and the rest (`backup`) unconditionally — not as an `or` / conditional fallback that drops'
+           ' the unproven workers as soon as one worker is proven: when the only proven worker then dies by good-bye /'
+           ' heartbeat (which does not remove it from the proven set), the loop sees no usable candidate and spins for ever'
+           ' although an alive, idle worker exists')
+  mi = ctx.repo.module('chainables.orchestrate')
+  fi = mi.functions.get('as_completed')
+  if fi is None:
+    raise AnalysisError(f'{rule}: orchestrate.as_completed not found')
+  n = 0
+  for c in ast.walk(fi.node):
+    if not (isinstance(c, ast.Call) and isinstance(c.func, ast.Attribute) and c.func.attr == 'next_idle_worker' and c.args
+            and isinstance(c.args[0], ast.Name)):
+      continue
+    cand = c.args[0].id
+    defs = [x.value for x in ast.walk(fi.node) if isinstance(x, ast.Assign) and any(isinstance(t, ast.Name) and t.id == cand for t in x.targets)]
+    for d in defs:
+      n += 1
+      # names that are guaranteed to contribute: operands of `or` after the first, and IfExp arms, are not
+      def guaranteed(e):
+        if isinstance(e, ast.BoolOp) and isinstance(e.op, ast.Or):
+          return guaranteed(e.values[0])
+        if isinstance(e, ast.IfExp):
+          return guaranteed(e.body) & guaranteed(e.orelse)
+        out = set()
+        for ch in ast.iter_child_nodes(e):
+          out |= guaranteed(ch)
+        if isinstance(e, ast.Name):
+          out.add(e.id)
+        return out
+      g_ = guaranteed(d)
+      rest = {t.id for x in ast.walk(fi.node) if isinstance(x, ast.Assign) and any(
+          isinstance(y, ast.Attribute) and y.attr == 'workers' for y in ast.walk(x.value)) for t in x.targets if isinstance(t, ast.Name)}
+      what = f'as_completed: the candidates `{cand}` always include the workers that are not proven yet'
+      if rest and not (rest & g_) and not any(isinstance(y, ast.Attribute) and y.attr == 'workers' for y in ast.walk(d)):
+        ctx.fail(rule, fi, what,
+                 f'`{cand} = {unparse(d)[:70]}` offers {sorted(rest)} only as a fallback: once a worker is proven the others are never'
+                 ' candidates again — if that worker dies without a failed call the remaining tasks are never submitted', node=d)
+      else:
+        ctx.ok(rule, fi, what, d)
+  ctx.floor(rule, 1, n)
+
+
 from mlmverif.selfcheck import B, OK  # noqa: E402
 
 _W = 'chainables/courier_worker.py'
 _O = 'chainables/orchestrate.py'
 _U = 'utils/courier_utils.py'
 VARIANTS = [
+    B('repoll-after-a-timed-out-next-batch', 'utils/courier_utils.py',
+      "        output_batch = lazy_fns.maybe_make(\n            await asyncio.wrap_future(output_state)\n        )\n",
+      "        try:\n          output_batch = lazy_fns.maybe_make(\n              await asyncio.wrap_future(output_state)\n          )\n        except Exception as e:  # pylint: disable=broad-exception-caught\n          if is_timeout(e) and self.is_alive:\n            continue\n          raise\n", 'R-C06-23'),
+    B('unproven-workers-only-as-a-fallback', 'chainables/orchestrate.py',
+      "      workers = list(itertools.chain(preferred, backup_workers))", "      workers = list(preferred) or backup_workers", 'R-C06-24'),
+    OK('candidates-by-list-concatenation', 'chainables/orchestrate.py',
+       "      workers = list(itertools.chain(preferred, backup_workers))", "      workers = list(preferred) + backup_workers"),
     B('retry-budget-charged-with-the-work-list', 'chainables/courier_worker.py',
       "          timeout_cnt += len(timeout_tasks)", "          timeout_cnt += len(tasks)", 'R-C06-22'),
     OK('retry-budget-charged-before-requeue', 'chainables/courier_worker.py',
